@@ -21,7 +21,17 @@ for d in sorted(glob.glob('/verif/seeded/*-m*')):
     if not os.path.isdir(W): subprocess.run(['git', '-C', '/repo', 'worktree', 'add', '-q', '--detach', W, head], check=True)
     subprocess.run(['git', '-C', W, 'checkout', '-q', '--', '.'], check=True)
     subprocess.run(['git', '-C', W, 'checkout', '-q', '--detach', head], check=True)
-    subprocess.run(['git', '-C', W, 'apply', d + '/patch.diff'], check=True)
+    ap = subprocess.run(['git', '-C', W, 'apply', d + '/patch.diff'], capture_output=True, text=True)
+    if ap.returncode != 0:
+        # /repo has moved on since the change was delivered (fixes, hooks): fall back to a 3-way merge
+        subprocess.run(['git', '-C', W, 'checkout', '-q', '--', '.'], check=True)
+        ap = subprocess.run(['git', '-C', W, 'apply', '--3way', d + '/patch.diff'], capture_output=True, text=True)
+        if ap.returncode != 0:
+            subprocess.run(['git', '-C', W, 'checkout', '-q', '--', '.'])
+            subprocess.run(['git', '-C', W, 'reset', '-q', '--hard'])
+            print(name, prop, 'PATCH-DOES-NOT-APPLY', ap.stderr.strip().splitlines()[-1:] , flush=True)
+            continue
+        subprocess.run(['git', '-C', W, 'reset', '-q'])  # 3way stages the result: unstage, keep the working tree
     env = dict(os.environ, VERIF_MIN_BUDGET_S='10', VERIF_REPO=W)
     ev = f'{RUN}/evidence/{prop}.json'
     saved = open(ev).read() if os.path.exists(ev) else None
